@@ -373,6 +373,17 @@ def run(ctx):
             r = calling_fails(ctx, cc)
             if r:
                 ctx.report(cc, 'failure', r)
+    # hyperu with every kind of first parameter (positive, negative non-integer with (a)_n of either sign, negative integer) at
+    # orders 1..3, on every run
+    for a_ in (0.5, 2.0, -0.5, -1.3, -2.5, -1.0, -2.0):
+        for n_ in (1, 2, 3):
+            case = gen_case(ctx.rng, ctx.tier, 'hyperu')
+            case['a'], case['n'] = a_, n_
+            ctx.evaluations += 1
+            ctx.count('fn=hyperu', 'hyperu-parameter-kinds')
+            r = run_case(ctx, case)
+            if r:
+                ctx.report(case, 'failure', r)
     # the parameterised functions at every low order (array-valued parameters mixing order 0 with higher orders)
     for name in ('polygamma', 'hyperu'):
         for n_ in (0, 1, 2):
